@@ -1,6 +1,6 @@
 """C04 - Address and instance bytes: exact, local, mutually exclusive codec."""
 from pyvc.engine import Unit
-from pyvc.spec import And, Or, Not, ite, pow2, Implies, new_object
+from pyvc.spec import type_of, And, Or, Not, ite, pow2, Implies, new_object
 from dali import frame as F, address as A
 import contracts.frame as CF
 import contracts.address as CA
@@ -140,7 +140,7 @@ def units(tier):
             r = interp.call(A.from_frame, (f,), {})
             ctx.prove("reads-back-some-address", r is not None)
             if r is not None:
-                ctx.prove("reads-back-same-kind", r.cls is cls)
+                ctx.prove("reads-back-same-kind", type_of(r) is cls)
                 ctx.prove("reads-back-equal", interp.truth(interp.eq(r, a)))
                 ctx.prove("reads-back-equal-reflected", interp.truth(interp.eq(a, r)))
         lemma("roundtrip-local/" + cls.__name__, l_roundtrip)
@@ -156,7 +156,7 @@ def units(tier):
             ctx.prove("at-most-one-kind", len(some) <= 1)
             top = interp.call(A.from_frame, (f,), {})
             if some:
-                ctx.prove("scan-returns-that-kind", top is not None and top.cls is some[0])
+                ctx.prove("scan-returns-that-kind", top is not None and type_of(top) is some[0])
                 ctx.prove("scan-returns-equal-object",
                           top is not None and interp.truth(interp.eq(top, dict(hits)[some[0]])))
             else:
@@ -176,7 +176,7 @@ def units(tier):
             interp.call(interp.get_attr(i, "add_to_frame"), (f,), {})
             ctx.prove("only-the-instance-byte-changes", ((f._data ^ old) & ~0xFF00) == 0)
             r = interp.call(A.instance_from_frame, (f,), {})
-            ctx.prove("reads-back-same-kind", r is not None and r.cls is cls)
+            ctx.prove("reads-back-same-kind", r is not None and type_of(r) is cls)
             ctx.prove("reads-back-equal", r is not None and interp.truth(interp.eq(r, i)))
         lemma("instance-roundtrip-local/" + cls.__name__, l_inst)
 
@@ -190,6 +190,9 @@ def units(tier):
     lemma("instance-total", l_inst_total)
     return U
 
+
+# checks whose proof units establish the callee contracts applied here (re-verified by this check, see main.dependency_units)
+DEPENDENCIES = ['C05']
 
 META = {
     "level": "proof",
